@@ -32,6 +32,10 @@ fn graphs(rng: &mut Rng, tier: &str) -> Vec<(Mol, Vec<(usize, usize, f64)>)> {
         ("ammonium-chloride-ion-last", vec![7, 1, 1, 1, 1, 17], vec![(0, 1, 1.0), (0, 2, 1.0), (0, 3, 1.0), (0, 4, 1.0)]),
         ("sodium-acetate-ion-first", vec![11, 6, 6, 8, 8, 1, 1, 1], vec![(1, 2, 1.0), (2, 3, 2.0), (2, 4, 1.0), (1, 5, 1.0), (1, 6, 1.0), (1, 7, 1.0)]),
         ("methanol-water-h2", vec![6, 8, 1, 1, 1, 1, 8, 1, 1, 1, 1], vec![(0, 1, 1.0), (0, 2, 1.0), (0, 3, 1.0), (0, 4, 1.0), (1, 5, 1.0), (6, 7, 1.0), (6, 8, 1.0), (9, 10, 1.0)]),
+        // elements beyond the radius table (Z > 86: the documented guess is 2 A)
+        ("uranium-hexafluoride", vec![92, 9, 9, 9, 9, 9, 9], vec![(0, 1, 1.0), (0, 2, 1.0), (0, 3, 1.0), (0, 4, 1.0), (0, 5, 1.0), (0, 6, 1.0)]),
+        ("thorium-tetrachloride", vec![90, 17, 17, 17, 17], vec![(0, 1, 1.0), (0, 2, 1.0), (0, 3, 1.0), (0, 4, 1.0)]),
+        ("francium-hydride", vec![87, 1], vec![(0, 1, 1.0)]),
         ("fluoronium-bridge", vec![9, 6, 6, 1, 1, 1, 1, 1, 1], vec![(0, 1, 1.0), (0, 2, 1.0), (1, 3, 1.0), (1, 4, 1.0), (1, 5, 1.0), (2, 6, 1.0), (2, 7, 1.0), (2, 8, 1.0)]),
     ];
     for (name, zs, bonds) in explicit {
@@ -94,7 +98,9 @@ pub fn run(out: &mut Out, seed: u64, tier: &str) {
             if finite {
                 for (i, j, _) in &bonds {
                     let d = distance(*i, *j, x);
-                    let s = radius(m.zs[*i]) + radius(m.zs[*j]);
+                    // (the radii of the statement: tabulated up to Rn; beyond the table the documented guess of 2 A, taken from here, not from the code)
+                    let rad = |z: usize| if z > 86 { 2.0 } else { radius(z) };
+                    let s = rad(m.zs[*i]) + rad(m.zs[*j]);
                     let ratio = (d / s - 1.0).abs();
                     if ratio > worst_ratio { worst_ratio = ratio; }
                     if ratio > 0.25 { bad = true; why = format!("bonded pair {}-{} at {:.3} A, sum of covalent radii {:.3} A", i, j, d, s); }
